@@ -3503,13 +3503,12 @@ fn parse_live_reload_file(ac_params: &[SExpr], s: &ParserState) -> Result<&'stat
         bail!("{LIVE_RELOAD_FILE} {ERR_MSG}, found {}", ac_params.len());
     }
     let expr = &ac_params[0];
-    let spanned_filepath = match expr {
-        SExpr::Atom(filepath) => filepath,
-        SExpr::List(_) => {
+    let lrld_file_path = match expr.atom(s.vars()) {
+        Some(filepath) => filepath.trim_atom_quotes(),
+        None => {
             bail_expr!(&expr, "Filepath cannot be a list")
         }
     };
-    let lrld_file_path = spanned_filepath.t.trim_atom_quotes();
     Ok(s.a.sref(Action::Custom(s.a.sref(s.a.sref_slice(
         CustomAction::LiveReloadFile(lrld_file_path.to_string()),
     )))))
@@ -3521,13 +3520,12 @@ fn parse_clipboard_set(ac_params: &[SExpr], s: &ParserState) -> Result<&'static 
         bail!("{CLIPBOARD_SET} {ERR_MSG}, found {}", ac_params.len());
     }
     let expr = &ac_params[0];
-    let clip_string = match expr {
-        SExpr::Atom(filepath) => filepath,
-        SExpr::List(_) => {
+    let clip_string = match expr.atom(s.vars()) {
+        Some(clip_string) => clip_string.trim_atom_quotes(),
+        None => {
             bail_expr!(&expr, "Clipboard string cannot be a list")
         }
     };
-    let clip_string = clip_string.t.trim_atom_quotes();
     Ok(s.a.sref(Action::Custom(s.a.sref(
         s.a.sref_slice(CustomAction::ClipboardSet(clip_string.to_string())),
     ))))
